@@ -337,96 +337,107 @@ func c02Unit(j *Job, u *JobUnit) error {
 							Emit(uc2)
 							continue
 						}
-						f.reset()
-						ex, err := f.wire.Do(m.Verb, target, hdr, body)
-						if err != nil {
-							return fmt.Errorf("%s %s: %w", m.Verb, target, err)
+						// framing family: a body also travels with unknown length (chunked transfer)
+						framings := []string{""}
+						if len(body) > 0 {
+							framings = append(framings, "chunked")
 						}
-						cell := fmt.Sprintf("%s,body=%s#%s", cellBase, bc.label, strings.SplitN(uc.label, ":", 2)[0])
-						line := fmt.Sprintf("%s %s body=%q -> %d %s", m.Verb, target, body, ex.Status, clip(ex.RespBody))
-						switch {
-						case ex.Panic != "":
-							t.viol(cell, "panic", clipS(ex.Panic), []string{uc.label})
-							t.hit(cellBase, "panic", true)
-						case uc.bad:
-							if len(f.calls) > 0 {
-								sym := "bad_url_value_dispatched"
-								if uc.label == "missing_required" {
-									sym = "missing_required_dispatched"
-								}
-								t.viol(cell, sym, line, []string{uc.label})
-								t.hit(cellBase, sym, true)
-							} else if ex.Status != 400 {
-								t.viol(cell, "not_400", line, []string{uc.label})
-								t.hit(cellBase, "not_400", true)
-							} else {
-								ve, derr := decodeViolations(ex.RespBody, "application/json")
-								named := false
-								for _, fl := range violationFields(ve) {
-									if fl == sl.field || fl == fd.JSONName() {
-										named = true
+						for _, framing := range framings {
+							f.reset()
+							send, ftag := f.wire.Do, ""
+							if framing == "chunked" {
+								send, ftag = f.wire.DoChunked, ",framing=chunked"
+							}
+							ex, err := send(m.Verb, target, hdr, body)
+							if err != nil {
+								return fmt.Errorf("%s %s: %w", m.Verb, target, err)
+							}
+							cell := fmt.Sprintf("%s,body=%s%s#%s", cellBase, bc.label, ftag, strings.SplitN(uc.label, ":", 2)[0])
+							line := fmt.Sprintf("%s %s body=%q%s -> %d %s", m.Verb, target, body, ftag, ex.Status, clip(ex.RespBody))
+							switch {
+							case ex.Panic != "":
+								t.viol(cell, "panic", clipS(ex.Panic), []string{uc.label})
+								t.hit(cellBase, "panic", true)
+							case uc.bad:
+								if len(f.calls) > 0 {
+									sym := "bad_url_value_dispatched"
+									if uc.label == "missing_required" {
+										sym = "missing_required_dispatched"
 									}
-								}
-								if derr != nil || !named {
-									t.viol(cell, "violation_names_wrong_field", line, []string{uc.label})
-									t.hit(cellBase, "violation_names_wrong_field", true)
+									t.viol(cell, sym, line, []string{uc.label})
+									t.hit(cellBase, sym, true)
+								} else if ex.Status != 400 {
+									t.viol(cell, "not_400", line, []string{uc.label})
+									t.hit(cellBase, "not_400", true)
 								} else {
-									t.hit(cellBase, "rejected_400_naming_field", true)
-								}
-							}
-						case uc.want == nil:
-							// not judged beyond "no crash" (repeated occurrence of a singular parameter)
-							if ex.Status >= 500 {
-								t.viol(cell, "status_5xx", line, []string{uc.label})
-							}
-							t.hit(cellBase, "unjudged_no_crash", false)
-						default:
-							// the request the contract describes: URL-bound fields from the URL, the rest from the body
-							full := proto.Clone(req)
-							uc.want(full.ProtoReflect(), fd)
-							if bc.label != "object_omitting_url_fields" {
-								for i := 0; i < md.Fields().Len(); i++ {
-									if bf := md.Fields().Get(i); !urlFields[string(bf.Name())] {
-										full.ProtoReflect().Clear(bf)
+									ve, derr := decodeViolations(ex.RespBody, "application/json")
+									named := false
+									for _, fl := range violationFields(ve) {
+										if fl == sl.field || fl == fd.JSONName() {
+											named = true
+										}
+									}
+									if derr != nil || !named {
+										t.viol(cell, "violation_names_wrong_field", line, []string{uc.label})
+										t.hit(cellBase, "violation_names_wrong_field", true)
+									} else {
+										t.hit(cellBase, "rejected_400_naming_field", true)
 									}
 								}
-							}
-							if violatesRules(full) {
-								t.hit(cellBase, "skipped_rule_violating", false)
-								continue
-							}
-							if len(f.calls) != 1 {
-								t.viol(cell, "valid_url_value_not_dispatched", line, []string{uc.label})
-								t.hit(cellBase, "valid_url_value_not_dispatched", true)
-								continue
-							}
-							// expected: every URL-bound field carries the URL value (the body does not mention them)
-							wantMsg := proto.Clone(req)
-							uc.want(wantMsg.ProtoReflect(), fd)
-							seen := f.seen[0].ProtoReflect()
-							bad := ""
-							for n := range urlFields {
-								ufd := md.Fields().ByName(protoName(n))
-								if ufd == nil {
+							case uc.want == nil:
+								// not judged beyond "no crash" (repeated occurrence of a singular parameter)
+								if ex.Status >= 500 {
+									t.viol(cell, "status_5xx", line, []string{uc.label})
+								}
+								t.hit(cellBase, "unjudged_no_crash", false)
+							default:
+								// the request the contract describes: URL-bound fields from the URL, the rest from the body
+								full := proto.Clone(req)
+								uc.want(full.ProtoReflect(), fd)
+								if bc.label != "object_omitting_url_fields" {
+									for i := 0; i < md.Fields().Len(); i++ {
+										if bf := md.Fields().Get(i); !urlFields[string(bf.Name())] {
+											full.ProtoReflect().Clear(bf)
+										}
+									}
+								}
+								if violatesRules(full) {
+									t.hit(cellBase, "skipped_rule_violating", false)
 									continue
 								}
-								a, b := wantMsg.ProtoReflect().Get(ufd), seen.Get(ufd)
-								if !valueEqual(ufd, a, b) || wantMsg.ProtoReflect().Has(ufd) != seen.Has(ufd) && ufd.HasPresence() {
-									bad = fmt.Sprintf("field %s: URL says %v, handler saw %v", n, a, b)
-									if n == sl.field {
-										break
+								if len(f.calls) != 1 {
+									t.viol(cell, "valid_url_value_not_dispatched", line, []string{uc.label})
+									t.hit(cellBase, "valid_url_value_not_dispatched", true)
+									continue
+								}
+								// expected: every URL-bound field carries the URL value (the body does not mention them)
+								wantMsg := proto.Clone(req)
+								uc.want(wantMsg.ProtoReflect(), fd)
+								seen := f.seen[0].ProtoReflect()
+								bad := ""
+								for n := range urlFields {
+									ufd := md.Fields().ByName(protoName(n))
+									if ufd == nil {
+										continue
+									}
+									a, b := wantMsg.ProtoReflect().Get(ufd), seen.Get(ufd)
+									if !valueEqual(ufd, a, b) || wantMsg.ProtoReflect().Has(ufd) != seen.Has(ufd) && ufd.HasPresence() {
+										bad = fmt.Sprintf("field %s: URL says %v, handler saw %v", n, a, b)
+										if n == sl.field {
+											break
+										}
 									}
 								}
-							}
-							if bad != "" {
-								sym := "url_field_wrong"
-								if !seen.Has(fd) && wantMsg.ProtoReflect().Has(fd) {
-									sym = "url_field_lost"
+								if bad != "" {
+									sym := "url_field_wrong"
+									if !seen.Has(fd) && wantMsg.ProtoReflect().Has(fd) {
+										sym = "url_field_lost"
+									}
+									t.viol(cell, sym, bad+" | "+line, []string{uc.label})
+									t.hit(cellBase, sym, true)
+								} else {
+									t.hit(cellBase, "url_value_delivered", true)
 								}
-								t.viol(cell, sym, bad+" | "+line, []string{uc.label})
-								t.hit(cellBase, sym, true)
-							} else {
-								t.hit(cellBase, "url_value_delivered", true)
 							}
 						}
 					}
